@@ -174,7 +174,7 @@ static void for_each_to(mon::Rng& rng, tl<Tos...>)
     mon::Rng r(mon::seed() * 1000003 + idx);
     bool ex;
     sweep_pair<To, From>(r, ex);
-    if constexpr (!std::is_same_v<From, bool> && !std::is_same_v<To, bool>) sweep_arrays<To, From>(r);
+    sweep_arrays<To, From>(r); // (bool included: bool <- unsigned char elements have equal size and signedness, not equal ranges)
   };
   (one(std::common_type<Tos>{}), ...);
 }
